@@ -275,12 +275,12 @@ example : Gen.nullMoveOK false (Array.replicate 15 (GenMove.genMove ⟨1, 1, 2, 
 example : Gen.nullMoveOK false (Array.replicate 15 (GenMove.genMove ⟨0, 0, 1, 0#32⟩)) 2 3 0#64 21 (Array.replicate 25 0#64) 0#64 21 = some false := by
   decide
 
-/-! ### `recordCut` (statement only)
+/-! ### `recordCut`
 
-`Gen.recordCut` is regenerated and executed against the real function by `fn.recordcut` on every run, but the equality with the
-model's `recordCut` is NOT proved yet: what is missing is the (routine) case analysis below (move types are bytes, so that
-`genMove` is injective on the keys of the response map).  The history map is an extra
-output of the regenerated definition (the model replaces `sortMoves` by the ordering oracle). -/
+`Gen.recordCut` is regenerated and executed against the real function by `fn.recordcut` on every run; `recordCut_is_source`
+(work package gen6) proves the model's `recordCut` equal to it (move types are bytes, so that `genMove` is injective on the keys
+of the response map).  The history map is an extra output of the regenerated definition (the model replaces `sortMoves` by the
+ordering oracle). -/
 
 /-- the response map of the model as the regenerated association list -/
 def genResp (r : List (Move × Move)) : List (Gen.Move × Gen.Move) := r.map fun kv => (GenMove.genMove kv.1, GenMove.genMove kv.2)
@@ -297,5 +297,83 @@ def recordCut_statement : Prop :=
         cn = BitVec.ofNat 64 s'.st.cutNodes ∧ cs = BitVec.ofNat 64 s'.st.cutSearch
     | .error _, none => True
     | _, _ => False
+
+theorem genMove_inj (a b : Move) (ha : a.type < 256) (hb : b.type < 256) : GenMove.genMove a = GenMove.genMove b ↔ a = b := by
+  constructor
+  · intro h
+    cases a; cases b
+    simp only [GenMove.genMove, Gen.Move.mk.injEq] at h
+    obtain ⟨h1, h2, h3, h4⟩ := h
+    have := congrArg BitVec.toNat h3
+    simp at this ha hb
+    simp [h1, h2, h4]; omega
+  · intro h; rw [h]
+
+theorem genResp_put (r : List (Move × Move)) (k v : Move) (hk : k.type < 256) (hr : ∀ kv ∈ r, kv.1.type < 256) :
+    genResp (respPut r k v) = Gen.mapPut (genResp r) (GenMove.genMove k) (GenMove.genMove v) := by
+  induction r with
+  | nil => simp [genResp, respPut, Gen.mapPut]
+  | cons kv rest ih =>
+    obtain ⟨k0, v0⟩ := kv
+    have h0 : k0.type < 256 := hr (k0, v0) (by simp)
+    have ih' := ih (fun kv h => hr kv (by simp [h]))
+    simp only [genResp, List.map_cons, respPut, Gen.mapPut] at ih' ⊢
+    by_cases e : k0 = k
+    · subst e; simp
+    · have e' : ¬ GenMove.genMove k0 = GenMove.genMove k := fun h => e ((genMove_inj k0 k h0 hk).1 h)
+      simp only [e, e', if_false, List.map_cons]
+      rw [ih']
+
+theorem ofNat64_succ (n : Nat) : BitVec.ofNat 64 n + 1#64 = BitVec.ofNat 64 (n + 1) := by
+  simp [BitVec.ofNat_add]
+
+theorem ofNat64_addInt (n k : Nat) : BitVec.ofNat 64 n + BitVec.ofInt 64 ((k : Int) + 1) = BitVec.ofNat 64 (n + (k + 1)) := by
+  have : ((k : Int) + 1) = ((k + 1 : Nat) : Int) := by omega
+  rw [this, BitVec.ofInt_natCast, ← BitVec.ofNat_add]
+
+/-- **`recordCut`**: for every engine state with the 15 frames of `ai.stack` (move types are bytes, also of the keys of the response
+map), every cutting move, move index, ply and depth, and every (non-nil) history map: the model's `recordCut` and the regenerated
+`(*MinimaxAI).recordCut` (translated under `ai.cuts == nil`) both panic (`ai.stack[ply-1]` out of range) or leave the same response map and the
+same four cut counters (modulo 2^64). -/
+theorem recordCut_is_source : recordCut_statement := by
+  intro s m move ply depth hist hs ht hr
+  unfold Search.recordCut Gen.recordCut
+  simp only [Bool.false_eq_true, if_false, ofNat64_succ]
+  have hm1 : ((move : Int) == 1) = (move == 1) := by
+    rw [Bool.eq_iff_iff]; simp only [beq_iff_eq]; omega
+  have hm2 : ((move : Int) == 2) = (move == 2) := by
+    rw [Bool.eq_iff_iff]; simp only [beq_iff_eq]; omega
+  rw [hm1, hm2]
+  by_cases hp : ply > 0
+  · have hpi : decide ((ply : Int) > 0) = true := by simp; omega
+    simp only [hp, hpi, if_true]
+    by_cases hl : ply - 1 < 15
+    · have hi : ply - 1 < s.stackM.size := by omega
+      have g : (decide ((0 : Int) ≤ (ply : Int) - 1) && decide ((ply : Int) - 1 < 15)) = true := by simp; omega
+      have tn : ((ply : Int) - 1).toNat = ply - 1 := by omega
+      have gm : (s.stackM.map GenMove.genMove).getD (ply - 1) (default : Gen.Move) = GenMove.genMove s.stackM[ply - 1] := by
+        simp [Array.getD_eq_getD_getElem?, hi]
+      simp only [g, Bool.not_true, Bool.false_eq_true, if_false, tn, getA, Array.getElem?_eq_getElem hi, gm,
+        ← genResp_put s.response s.stackM[ply - 1] m (ht _ hi) hr]
+      by_cases c1 : move = 1
+      · simp [c1]
+      · by_cases c2 : move = 2
+        · simp [c2]
+        · simp [c1, c2, ofNat64_addInt]
+    · have g : (decide ((0 : Int) ≤ (ply : Int) - 1) && decide ((ply : Int) - 1 < 15)) = false := by simp; omega
+      have gn : s.stackM[ply - 1]? = none := by simp; omega
+      simp only [g, Bool.not_false, if_true, getA, gn]
+  · have hpi : decide ((ply : Int) > 0) = false := by simp; omega
+    simp only [hp, hpi, if_false, Bool.false_eq_true]
+    by_cases c1 : move = 1
+    · simp [c1]
+    · by_cases c2 : move = 2
+      · simp [c2]
+      · simp [c1, c2, ofNat64_addInt]
+
+example : (Gen.recordCut [] false [] false 0#64 0#64 0#64 0#64 (Array.replicate 15 (GenMove.genMove ⟨1, 1, 2, 0#32⟩)) (GenMove.genMove ⟨0, 2, 1, 0#32⟩) 3 2 1).map
+      (fun r => (r.2.1, r.2.2.2.2.1, r.2.2.2.2.2)) =
+    some ([(GenMove.genMove ⟨1, 1, 2, 0#32⟩, GenMove.genMove ⟨0, 2, 1, 0#32⟩)], 1#64, 4#64) := by
+  decide
 
 end C05
